@@ -1,4 +1,395 @@
 import Model.Server
+/-!
+# C07 — the SMTP server enforces command order and resets transaction state
+
+Property theorems about `Server.step` (one received command line), `afterData`, `afterTls` and
+`banner` of `Model/Server.lean`, for every validator behaviour (`Verdicts`), every state and every
+command line.
+-/
 namespace Slimta.C07
-theorem placeholder : (1 : Nat) = 1 := rfl
+open Slimta Slimta.Server
+
+/-- When the server may make a callback: the protocol order. -/
+def Allowed (s : St) : Cb → Prop
+  | .mail _ _ => s.ehloAs.isSome = true ∧ s.haveMail.truthy = false
+  | .rcpt _ _ => s.haveMail.truthy = true
+  | .data => s.haveMail.truthy = true ∧ s.haveRcpt.truthy = true
+  | .ehlo _ | .helo _ => s.bannered = true
+  | .starttls => s.extTls = true ∧ s.ehloAs.isSome = true
+  | .rset | .noop | .quit => True
+  | _ => False
+
+macro "allowed_tac" : tactic => `(tactic| (simp_all [Allowed, Option.isSome_iff_ne_none, Option.isNone_iff_eq_none] <;> try (split <;> simp_all)))
+
+/-- What one command may put on the wire / call (`ok`: which callbacks are admissible). -/
+inductive Shape (ok : Cb → Prop) : List Event → Next → Prop
+  | rejected (code : Nat) (nx : Next) : code ∈ [500, 501, 503, 504, 552] → (nx = .continue_ ∨ nx = .aborted) →
+      Shape ok [.reply code] nx
+  | authPending (m : Bytes) (i : Option Bytes) : Shape ok [] (.auth m i)
+  | called (c : Cb) (code : Nat) (nx : Next) : ok c → code ≠ 221 → code ≠ 421 → (nx = .continue_ ∨ nx = .data ∨ nx = .tls) →
+      Shape ok [.cb c, .reply code] nx
+  | calledClose (c : Cb) (code : Nat) : ok c → (code = 221 ∨ code = 421) → Shape ok [.cb c, .reply code, .cb .close] .closed
+
+theorem finish_shape (ok : Cb → Prop) (s : St) (c : Cb) (code : Nat) (hok : ok c) :
+    Shape ok (finish s [.cb c] code).2.1 (finish s [.cb c] code).2.2 := by
+  simp only [finish]
+  split
+  · rename_i h; simp at h
+    exact Shape.calledClose c code hok h
+  · rename_i h; simp at h
+    exact Shape.called c code .continue_ hok h.1 h.2 (Or.inl rfl)
+
+theorem rej (ok : Cb → Prop) (s : St) (code : Nat) (h : code ∈ [500, 501, 503, 504, 552]) :
+    Shape ok ((s, [Event.reply code], Next.continue_) : St × List Event × Next).2.1
+          ((s, [Event.reply code], Next.continue_) : St × List Event × Next).2.2 :=
+  Shape.rejected code .continue_ h (Or.inl rfl)
+
+theorem stepHello_shape (v : Verdicts) (s : St) (isE : Bool) (arg : Option Bytes) :
+    Shape (Allowed s) (stepHello v s isE arg).2.1 (stepHello v s isE arg).2.2 := by
+  simp only [stepHello]
+  split
+  · exact rej _ s 503 (by simp)
+  · split
+    · exact rej _ s 501 (by simp)
+    · split
+      · exact rej _ s 501 (by simp)
+      · split
+        · exact Shape.rejected 501 .aborted (by simp) (Or.inr rfl)
+        · simp only [callback]; exact finish_shape _ _ _ _ (by cases isE <;> simp_all [Allowed])
+
+theorem stepStartTls_shape (v : Verdicts) (s : St) (arg : Option Bytes) :
+    Shape (Allowed s) (stepStartTls v s arg).2.1 (stepStartTls v s arg).2.2 := by
+  simp only [stepStartTls]
+  split
+  · exact rej _ s 500 (by simp)
+  · split
+    · exact rej _ s 501 (by simp)
+    · split
+      · exact rej _ s 503 (by simp)
+      · simp only [callback, List.singleton_append]
+        by_cases h : ((v s.ncb).getD 220 == 221 || (v s.ncb).getD 220 == 421) = true
+        · simp only [h, if_true]
+          simp at h; exact Shape.calledClose _ _ (by allowed_tac) h
+        · simp only [h]
+          simp at h
+          by_cases h2 : ((v s.ncb).getD 220 == 220) = true
+          · simp only [h2, if_true]
+            exact Shape.called _ 220 .tls (by allowed_tac) (by decide) (by decide) (Or.inr (Or.inr rfl))
+          · simp only [h2]
+            exact Shape.called _ _ .continue_ (by allowed_tac) h.1 h.2 (Or.inl rfl)
+
+theorem stepAuth_shape (s : St) (arg : Option Bytes) : Shape (Allowed s) (stepAuth s arg).2.1 (stepAuth s arg).2.2 := by
+  simp only [stepAuth]
+  split
+  · exact rej _ s 500 (by simp)
+  · split
+    · exact rej _ s 503 (by simp)
+    · split
+      · exact rej _ s 501 (by simp)
+      · split
+        · exact rej _ s 504 (by simp)
+        · split
+          · exact Shape.authPending _ _
+          · split
+            · split
+              · exact Shape.authPending _ _
+              · exact rej _ s 504 (by simp)
+            · exact rej _ s 504 (by simp)
+
+theorem mailAccepted_shape (v : Verdicts) (s : St) (addr : Bytes) (ps) (hok : Allowed s (.mail addr ps)) :
+    Shape (Allowed s) (mailAccepted v s addr ps).2.1 (mailAccepted v s addr ps).2.2 := by
+  simp only [mailAccepted, callback]; exact finish_shape _ _ _ _ hok
+
+theorem stepMail_shape (v : Verdicts) (s : St) (arg : Option Bytes) :
+    Shape (Allowed s) (stepMail v s arg).2.1 (stepMail v s arg).2.2 := by
+  simp only [stepMail]
+  split
+  · exact rej _ s 501 (by simp)
+  · split
+    · exact rej _ s 501 (by simp)
+    · split
+      · exact rej _ s 501 (by simp)
+      · split
+        · exact Shape.rejected 501 .aborted (by simp) (Or.inr rfl)
+        · split
+          · exact rej _ s 503 (by simp)
+          · split
+            · exact rej _ s 503 (by simp)
+            · split
+              · exact mailAccepted_shape _ _ _ _ (by allowed_tac)
+              · split
+                · exact rej _ s 501 (by simp)
+                · split
+                  · exact rej _ s 504 (by simp)
+                  · split
+                    · exact rej _ s 552 (by simp)
+                    · exact mailAccepted_shape _ _ _ _ (by allowed_tac)
+
+theorem stepRcpt_shape (v : Verdicts) (s : St) (arg : Option Bytes) :
+    Shape (Allowed s) (stepRcpt v s arg).2.1 (stepRcpt v s arg).2.2 := by
+  simp only [stepRcpt]
+  split
+  · exact rej _ s 501 (by simp)
+  · split
+    · exact rej _ s 501 (by simp)
+    · split
+      · exact rej _ s 501 (by simp)
+      · split
+        · exact Shape.rejected 501 .aborted (by simp) (Or.inr rfl)
+        · split
+          · exact rej _ s 503 (by simp)
+          · simp only [callback]; exact finish_shape _ _ _ _ (by allowed_tac)
+
+theorem stepData_shape (v : Verdicts) (s : St) (arg : Option Bytes) :
+    Shape (Allowed s) (stepData v s arg).2.1 (stepData v s arg).2.2 := by
+  simp only [stepData]
+  split
+  · exact rej _ s 501 (by simp)
+  · split
+    · exact rej _ s 503 (by simp)
+    · simp only [callback, List.singleton_append]
+      by_cases h : ((v s.ncb).getD 354 == 221 || (v s.ncb).getD 354 == 421) = true
+      · simp only [h, if_true]
+        simp at h; exact Shape.calledClose _ _ (by allowed_tac) h
+      · simp only [h]
+        simp at h
+        by_cases h2 : ((v s.ncb).getD 354 == 354) = true
+        · simp only [h2, if_true]
+          exact Shape.called _ 354 .data (by allowed_tac) (by decide) (by decide) (Or.inr (Or.inl rfl))
+        · simp only [h2]
+          exact Shape.called _ _ .continue_ (by allowed_tac) h.1 h.2 (Or.inl rfl)
+
+theorem stepRset_shape (v : Verdicts) (s : St) (arg : Option Bytes) :
+    Shape (Allowed s) (stepRset v s arg).2.1 (stepRset v s arg).2.2 := by
+  simp only [stepRset]
+  split
+  · exact rej _ s 501 (by simp)
+  · simp only [callback]; exact finish_shape _ _ _ _ (by allowed_tac)
+
+theorem stepQuit_shape (v : Verdicts) (s : St) (arg : Option Bytes) :
+    Shape (Allowed s) (stepQuit v s arg).2.1 (stepQuit v s arg).2.2 := by
+  simp only [stepQuit]
+  split
+  · exact rej _ s 501 (by simp)
+  · simp only [callback]; exact finish_shape _ _ _ _ (by allowed_tac)
+
+/-- **Every command line gets exactly one final reply** (`354`/`220`-before-handshake count as the
+    reply of that line; an AUTH exchange that still has to run has sent nothing yet), **an error reply
+    produced by the server itself comes with no callback**, and **a 221/421 reply ends the session**
+    with the CLOSE callback and nothing after it. -/
+theorem step_shape (v : Verdicts) (s : St) (cmd : Option (Bytes × Option Bytes)) :
+    Shape (Allowed s) (step v s cmd).2.1 (step v s cmd).2.2 := by
+  simp only [step]
+  split
+  · exact rej _ s 500 (by simp)
+  · split
+    · exact stepHello_shape _ _ _ _
+    · split
+      · exact stepHello_shape _ _ _ _
+      · split
+        · exact stepStartTls_shape _ _ _
+        · split
+          · exact stepAuth_shape _ _
+          · split
+            · exact stepMail_shape _ _ _
+            · split
+              · exact stepRcpt_shape _ _ _
+              · split
+                · exact stepData_shape _ _ _
+                · split
+                  · exact stepRset_shape _ _ _
+                  · split
+                    · simp only [stepNoop, callback]; exact finish_shape _ _ _ _ (by simp [Allowed])
+                    · split
+                      · exact stepQuit_shape _ _ _
+                      · exact rej _ s 500 (by simp)
+
+def replies (evs : List Event) : List Nat := evs.filterMap fun e => match e with | .reply c => some c | _ => none
+def callbacks (evs : List Event) : List Cb := evs.filterMap fun e => match e with | .cb c => some c | _ => none
+
+/-- Corollary: one reply per command line (none yet while an AUTH exchange is pending). -/
+theorem one_final_reply (v : Verdicts) (s : St) (cmd : Option (Bytes × Option Bytes)) :
+    (replies (step v s cmd).2.1).length = 1 ∨ (∃ m i, (step v s cmd).2.2 = .auth m i ∧ (step v s cmd).2.1 = []) := by
+  have hs := step_shape v s cmd
+  generalize (step v s cmd).2.1 = evs at hs ⊢
+  generalize (step v s cmd).2.2 = nx at hs ⊢
+  cases hs with
+  | rejected code nx _ _ => left; rfl
+  | authPending m i => right; exact ⟨m, i, rfl, rfl⟩
+  | called c code nx _ _ _ _ => left; rfl
+  | calledClose c code _ _ => left; rfl
+
+/-- Corollary: a 221/421 reply closes; the CLOSE callback is the last event. -/
+theorem close_code_closes (v : Verdicts) (s : St) (cmd : Option (Bytes × Option Bytes)) (code : Nat)
+    (hc : code = 221 ∨ code = 421) (h : code ∈ replies (step v s cmd).2.1) :
+    (step v s cmd).2.2 = .closed ∧ (step v s cmd).2.1.getLast? = some (.cb .close) := by
+  have hs := step_shape v s cmd
+  generalize (step v s cmd).2.1 = evs at hs h ⊢
+  generalize (step v s cmd).2.2 = nx at hs ⊢
+  cases hs with
+  | rejected c nx hm _ =>
+    simp [replies] at h; subst h
+    rcases hc with rfl | rfl <;> simp at hm
+  | authPending m i => simp [replies] at h
+  | called c cd nx _ h1 h2 _ =>
+    simp [replies] at h; subst h
+    rcases hc with rfl | rfl
+    · exact absurd rfl h1
+    · exact absurd rfl h2
+  | calledClose c cd _ _ => simp
+
+/-- Corollary: a reply not preceded by a callback is one of the server's own error replies. -/
+theorem rejected_without_callback (v : Verdicts) (s : St) (cmd : Option (Bytes × Option Bytes))
+    (h : callbacks (step v s cmd).2.1 = []) :
+    (∃ code, code ∈ [500, 501, 503, 504, 552] ∧ (step v s cmd).2.1 = [.reply code]) ∨
+    (∃ m i, (step v s cmd).2.2 = .auth m i) := by
+  have hs := step_shape v s cmd
+  generalize (step v s cmd).2.1 = evs at hs h ⊢
+  generalize (step v s cmd).2.2 = nx at hs ⊢
+  cases hs with
+  | rejected code nx hm _ => exact Or.inl ⟨code, hm, rfl⟩
+  | authPending m i => exact Or.inr ⟨m, i, rfl⟩
+  | called c code nx _ _ _ _ => simp [callbacks] at h
+  | calledClose c code _ _ => simp [callbacks] at h
+
+/-- **Callbacks are made only in protocol order**: whatever callback a command line causes is
+    admissible in the state the server was in (MAIL: EHLO/HELO accepted and no sender open; RCPT:
+    a sender accepted; DATA: sender and recipient accepted; EHLO/HELO: greeting accepted). -/
+theorem callbacks_in_order (v : Verdicts) (s : St) (cmd : Option (Bytes × Option Bytes)) (c : Cb)
+    (h : .cb c ∈ (step v s cmd).2.1) : c = .close ∨ Allowed s c := by
+  have hs := step_shape v s cmd
+  generalize (step v s cmd).2.1 = evs at hs h
+  generalize (step v s cmd).2.2 = nx at hs
+  cases hs with
+  | rejected code nx _ _ => simp at h
+  | authPending m i => simp at h
+  | called c' code nx hok _ _ _ => simp at h; subst h; exact Or.inr hok
+  | calledClose c' code hok _ =>
+    simp at h
+    rcases h with rfl | rfl
+    · exact Or.inr hok
+    · exact Or.inl rfl
+
+theorem finish_state (s : St) (evs : List Event) (code : Nat) : (finish s evs code).1 = s := by
+  simp only [finish]; split <;> rfl
+
+/-! ### the transaction is forgotten -/
+
+/-- After every message (accepted, rejected or too big) sender and recipients are forgotten. -/
+theorem reset_after_message (v : Verdicts) (s : St) (content : Option Bytes) :
+    (afterData v s content).1.haveMail = .unset ∧ (afterData v s content).1.haveRcpt = .unset ∧
+    (afterData v s content).1.envelope = none := by
+  simp [afterData, callback, finish_state]
+
+/-- After a TLS handshake the server is back in its just-greeted state. -/
+theorem reset_after_tls (s : St) :
+    (afterTls s).1.ehloAs = none ∧ (afterTls s).1.haveMail = .unset ∧ (afterTls s).1.haveRcpt = .unset ∧
+    (afterTls s).1.envelope = none ∧ (afterTls s).1.extTls = false := by
+  simp [afterTls]
+
+/-- An accepted RSET forgets sender and recipients (and the session's envelope in any case). -/
+theorem reset_after_rset (v : Verdicts) (s : St) (h : (v s.ncb).getD 250 = 250) :
+    (stepRset v s none).1.haveMail = .unset ∧ (stepRset v s none).1.haveRcpt = .unset ∧
+    (stepRset v s none).1.envelope = none := by
+  simp [stepRset, callback, finish_state, h]
+
+/-- An accepted EHLO/HELO forgets sender and recipients. -/
+theorem reset_after_hello (v : Verdicts) (s : St) (isE : Bool) (a : Bytes) (hb : s.bannered = true)
+    (ha : a ≠ []) (hu : utf8 a = true) (h : (v s.ncb).getD 250 = 250) :
+    (stepHello v s isE (some a)).1.haveMail = .unset ∧ (stepHello v s isE (some a)).1.haveRcpt = .unset ∧
+    (stepHello v s isE (some a)).1.envelope = none := by
+  simp [stepHello, callback, finish_state, h, hb, ha, hu]
+
+/-! ### flags are raised only by accepted commands -/
+
+/-- A command other than MAIL never raises the sender flag: it leaves it or clears it. -/
+def KeepsMail (s s' : St) : Prop := s'.haveMail = s.haveMail ∨ s'.haveMail = .unset
+def KeepsRcpt (s s' : St) : Prop := s'.haveRcpt = s.haveRcpt ∨ s'.haveRcpt = .unset
+
+theorem hello_keeps (v s isE arg) : KeepsMail s (stepHello v s isE arg).1 ∧ KeepsRcpt s (stepHello v s isE arg).1 := by
+  simp only [stepHello, callback]
+  repeat' split
+  all_goals (simp [KeepsMail, KeepsRcpt, finish_state] <;> try (repeat' split) <;> simp_all)
+
+theorem starttls_keeps (v s arg) : KeepsMail s (stepStartTls v s arg).1 ∧ KeepsRcpt s (stepStartTls v s arg).1 := by
+  simp only [stepStartTls, callback]
+  repeat' split
+  all_goals (simp [KeepsMail, KeepsRcpt] <;> try (repeat' split) <;> simp_all)
+
+theorem auth_keeps (s arg) : (stepAuth s arg).1 = s := by
+  simp only [stepAuth]
+  repeat' split
+  all_goals rfl
+
+theorem rcpt_keeps_mail (v s arg) : KeepsMail s (stepRcpt v s arg).1 := by
+  simp only [stepRcpt, callback]
+  repeat' split
+  all_goals (simp [KeepsMail, finish_state] <;> try (repeat' split) <;> simp_all)
+
+theorem mail_keeps_rcpt (v s arg) : KeepsRcpt s (stepMail v s arg).1 := by
+  simp only [stepMail, mailAccepted, callback]
+  repeat' split
+  all_goals (simp [KeepsRcpt, finish_state] <;> try (repeat' split) <;> simp_all)
+
+theorem data_keeps (v s arg) : KeepsMail s (stepData v s arg).1 ∧ KeepsRcpt s (stepData v s arg).1 := by
+  simp only [stepData, callback]
+  repeat' split
+  all_goals (simp [KeepsMail, KeepsRcpt] <;> try (repeat' split) <;> simp_all)
+
+theorem rset_keeps (v s arg) : KeepsMail s (stepRset v s arg).1 ∧ KeepsRcpt s (stepRset v s arg).1 := by
+  simp only [stepRset, callback]
+  repeat' split
+  all_goals (simp [KeepsMail, KeepsRcpt, finish_state] <;> try (repeat' split) <;> simp_all)
+
+theorem noop_keeps (v s) : (stepNoop v s).1.haveMail = s.haveMail ∧ (stepNoop v s).1.haveRcpt = s.haveRcpt := by
+  simp [stepNoop, callback, finish_state]
+
+theorem quit_keeps (v s arg) : (stepQuit v s arg).1.haveMail = s.haveMail ∧ (stepQuit v s arg).1.haveRcpt = s.haveRcpt := by
+  simp only [stepQuit, callback]
+  split <;> simp [finish_state]
+
+/-- **No command other than MAIL raises the sender flag, none other than RCPT the recipient flag**
+    (they leave the flag alone or clear it), for every command line. -/
+theorem flags_raised_only_by_their_command (v : Verdicts) (s : St) (name : Bytes) (arg : Option Bytes) :
+    (¬ cmdIs name "MAIL" = true → KeepsMail s (step v s (some (name, arg))).1) ∧
+    (¬ cmdIs name "RCPT" = true → KeepsRcpt s (step v s (some (name, arg))).1) := by
+  constructor
+  · intro hn
+    simp only [step]
+    repeat' split
+    all_goals first
+      | exact (hello_keeps _ _ _ _).1
+      | exact (starttls_keeps _ _ _).1
+      | (rw [auth_keeps]; exact Or.inl rfl)
+      | exact rcpt_keeps_mail _ _ _
+      | exact (data_keeps _ _ _).1
+      | exact (rset_keeps _ _ _).1
+      | exact Or.inl (noop_keeps _ _).1
+      | exact Or.inl (quit_keeps _ _ _).1
+      | exact Or.inl rfl
+      | (exfalso; simp_all)
+  · intro hn
+    simp only [step]
+    repeat' split
+    all_goals first
+      | exact (hello_keeps _ _ _ _).2
+      | exact (starttls_keeps _ _ _).2
+      | (rw [auth_keeps]; exact Or.inl rfl)
+      | exact mail_keeps_rcpt _ _ _
+      | exact (data_keeps _ _ _).2
+      | exact (rset_keeps _ _ _).2
+      | exact Or.inl (noop_keeps _ _).2
+      | exact Or.inl (quit_keeps _ _ _).2
+      | exact Or.inl rfl
+      | (exfalso; simp_all)
+
+/-! ### non-vacuity -/
+
+-- "FROM:<a>" accepted after EHLO; refused (503, no callback) before it
+example : (stepMail (fun _ => none) { bannered := true, ehloAs := some [97], extTls := false, extAuth := false, extSize := none }
+    (some [70, 82, 79, 77, 58, 60, 97, 62])).2.1 = [.cb (.mail [97] []), .reply 250] := by decide
+
+example : (stepMail (fun _ => none) { bannered := true, extTls := false, extAuth := false, extSize := none }
+    (some [70, 82, 79, 77, 58, 60, 97, 62])).2.1 = [.reply 503] := by decide
+
 end Slimta.C07
